@@ -6,6 +6,8 @@ TECH = 'path-wise symbolic execution of the clang-14 LLVM IR of the real functio
 CLAIMED = {
  'C13': dict(text='Bounded symbolic model checking of the real conversion kernels: the coordinate round trip is decided for all 2^32 values; strict parsing for every byte string up to the stated length and for grammar-shaped long strings against an exact integer reference.',
              note='Trusts clang-14 IR generation, the IR interpreter (validated per run against the native build on test inputs), z3; libc strtoll/timegm/gmtime_r are contract models.', ref='§2 C13'),
+ 'C16': dict(text='Bounded symbolic model checking of the real comparators: strict-weak-order axioms, mutual consistency and agreement with the documented (type, id rule, version) key for three objects whose type, 64-bit id, version, timestamp and visibility are fully symbolic; CheckOrder against the strict order on short symbolic sequences from a fresh state.',
+             note='std::stable_sort itself is not encoded (its contract is the link between the axioms and sorted output); ids exclude INT64_MIN (documented domain); timestamps valid where the order uses them.', ref='§2 C16'),
 }
 NA = {
  'C19': 'The property is its schedule quantifier (lost wake-ups, FIFO under contention, exactly-once execution); bounded symbolic interleaving with cbmc did not finish a 2-thread toy monitor in 200 s here, and enumerating schedules would be a different technique family.',
